@@ -528,6 +528,7 @@ func init() {
 				jobs = append(jobs, c12SingleJob(s, 8), c12PairJob(s, 8, maxLen))
 			}
 			jobs = append(jobs, c12ConcurrentJobs(tier)...)
+			jobs = append(jobs, c12DelAfterPodGoneJob())
 			return append(jobs, c12FreshJob())
 		}})
 	replayers["C12"] = replayDescOnly
